@@ -13,8 +13,49 @@ def _c12_nul_in_id(d):
     return False
 
 
+import re as _re
+
+_NAMED_ONE = _re.compile(r"^\{([;?&])((?:[A-Za-z0-9_.]|%[0-9A-Fa-f]{2})+)(?::\d+|\*)?\}$")
+
+
+def _c11_rest_ok(d):
+    """everything else the spec predicate demands holds on this case: the hub's answers are the rule's, expansions match"""
+    if d.get("kind") != "template" or not (d.get("parsed") and d.get("compiled")) or d.get("hub_panic"):
+        return False
+    sel = d["selector"]
+    rule = [sel == "*" or t == sel or bool(l) for t, l in zip(d["topics"], d["library"])]
+    if rule != d["hub"]:
+        return False
+    return all(e in d["topics"] and d["library"][d["topics"].index(e)] for e in (d.get("expansions") or []))
+
+
+def _c11_flagged_named(d):
+    m = _NAMED_ONE.match(d.get("selector", ""))
+    if not m:
+        return []
+    pre = m.group(1) + m.group(2)
+    return [t for t, l in zip(d["topics"], d["library"]) if l and t != "" and not t.startswith(pre)]
+
+
+def _c11_flagged_prefix(d):
+    if d.get("selector") != "{x:3}":
+        return []
+    return [t for t, l in zip(d["topics"], d["library"]) if l and t == "abcd"]
+
+
+def _c11_varname(d):
+    # only the named-expression shape is flagged in this case
+    return _c11_rest_ok(d) and bool(_c11_flagged_named(d)) and not _c11_flagged_prefix(d)
+
+
+def _c11_prefix(d):
+    return _c11_rest_ok(d) and bool(_c11_flagged_prefix(d)) and not _c11_flagged_named(d)
+
+
 MATCHERS = {
     "c12-nul-in-id": _c12_nul_in_id,
+    "c11-regexp-ignores-variable-name": _c11_varname,
+    "c11-regexp-ignores-prefix-length": _c11_prefix,
 }
 
 _KF = None
